@@ -7,8 +7,11 @@ from typing import Any
 
 from .rt import Runtime
 from .spec import compile_with, iter_nodes
-from .util import canon, digest
+from .util import canon, digest, mix
 from .world import call_async, call_sync, make_runner, patched
+
+
+_RESERVED = {"select", "on_missing", "on_internal_override", "entrypoint", "max_iterations", "max_concurrency", "error_handling", "event_processors", "_parent_span_id", "graph", "values", "self", "map_over", "map_mode", "clone"}
 
 
 class BuildError(Exception):
@@ -51,6 +54,7 @@ def run_world(
     prepare: Any = None,
     derive: Any = None,
     warm_values: Any = None,
+    kw_split: int | None = None,
 ) -> dict:
     """One fresh world: compile, run one top-level call, return outcome + runtime.
 
@@ -85,6 +89,13 @@ def run_world(
             values = values(graph)
         if processors_factory is not None:
             kw["event_processors"] = processors_factory(rt)
+        full_values = values
+        if kw_split is not None and op == "run" and isinstance(values, dict):
+            # pass some inputs as keyword arguments next to the values mapping (both spellings are public API)
+            values = dict(values)
+            for name in sorted(values):
+                if name.isidentifier() and name not in _RESERVED and name not in kw and mix("kw", kw_split, name) % 3 == 0:
+                    kw[name] = values.pop(name)
         if mode == "sync":
             runner = make_runner("sync", rt, cache)
             fn = getattr(runner, op)
@@ -102,7 +113,7 @@ def run_world(
                 limits=[mc],
                 step_cap=step_cap,
             )[0]
-    return {"out": out, "rt": rt, "graph": graph, "comp": comp, "values": values}
+    return {"out": out, "rt": rt, "graph": graph, "comp": comp, "values": full_values}
 
 
 def invocations(rt: Runtime, *, kinds: tuple = ("fn", "gate", "interrupt")) -> list[tuple[str, str]]:
